@@ -251,6 +251,124 @@ func (l Lib) Value(g geom.T) (driver.Value, error) {
 	return nil, fmt.Errorf("wkbadapt: no wkb wrapper for %T", g)
 }
 
+// Valuer returns the SQL wrapper matching g's type, holding g, for repeated use.
+func (l Lib) Valuer(g geom.T) driver.Valuer {
+	if l.C.EWKB {
+		switch g := g.(type) {
+		case *geom.Point:
+			return &ewkb.Point{Point: g}
+		case *geom.LineString:
+			return &ewkb.LineString{LineString: g}
+		case *geom.Polygon:
+			return &ewkb.Polygon{Polygon: g}
+		case *geom.MultiPoint:
+			return &ewkb.MultiPoint{MultiPoint: g}
+		case *geom.MultiLineString:
+			return &ewkb.MultiLineString{MultiLineString: g}
+		case *geom.MultiPolygon:
+			return &ewkb.MultiPolygon{MultiPolygon: g}
+		case *geom.GeometryCollection:
+			return &ewkb.GeometryCollection{GeometryCollection: g}
+		}
+		return nil
+	}
+	switch g := g.(type) {
+	case *geom.Point:
+		return &wkb.Point{Point: g}
+	case *geom.LineString:
+		return &wkb.LineString{LineString: g}
+	case *geom.Polygon:
+		return &wkb.Polygon{Polygon: g}
+	case *geom.MultiPoint:
+		return &wkb.MultiPoint{MultiPoint: g}
+	case *geom.MultiLineString:
+		return &wkb.MultiLineString{MultiLineString: g}
+	case *geom.MultiPolygon:
+		return &wkb.MultiPolygon{MultiPolygon: g}
+	case *geom.GeometryCollection:
+		return &wkb.GeometryCollection{GeometryCollection: g}
+	}
+	return nil
+}
+
+// Scanner is one SQL wrapper used for several rows.
+type Scanner struct {
+	scan func(src any) error
+	get  func() geom.T
+}
+
+// Scan scans the next row's value.
+func (s *Scanner) Scan(src any) (geom.T, error) {
+	if err := s.scan(src); err != nil {
+		return nil, err
+	}
+	return s.get(), nil
+}
+
+func nilIf[T any](p *T, g geom.T) geom.T {
+	if p == nil {
+		return nil
+	}
+	return g
+}
+
+// NewScanner returns one wrapper of the given kind to be scanned into repeatedly.
+func (l Lib) NewScanner(kind string) *Scanner {
+	if l.C.EWKB {
+		switch kind {
+		case mgeom.Pt:
+			w := &ewkb.Point{}
+			return &Scanner{w.Scan, func() geom.T { return nilIf(w.Point, w.Point) }}
+		case mgeom.LS:
+			w := &ewkb.LineString{}
+			return &Scanner{w.Scan, func() geom.T { return nilIf(w.LineString, w.LineString) }}
+		case mgeom.Pg:
+			w := &ewkb.Polygon{}
+			return &Scanner{w.Scan, func() geom.T { return nilIf(w.Polygon, w.Polygon) }}
+		case mgeom.MPt:
+			w := &ewkb.MultiPoint{}
+			return &Scanner{w.Scan, func() geom.T { return nilIf(w.MultiPoint, w.MultiPoint) }}
+		case mgeom.MLS:
+			w := &ewkb.MultiLineString{}
+			return &Scanner{w.Scan, func() geom.T { return nilIf(w.MultiLineString, w.MultiLineString) }}
+		case mgeom.MPg:
+			w := &ewkb.MultiPolygon{}
+			return &Scanner{w.Scan, func() geom.T { return nilIf(w.MultiPolygon, w.MultiPolygon) }}
+		case mgeom.GC:
+			w := &ewkb.GeometryCollection{}
+			return &Scanner{w.Scan, func() geom.T { return nilIf(w.GeometryCollection, w.GeometryCollection) }}
+		}
+		return nil
+	}
+	switch kind {
+	case "Geom":
+		w := &wkb.Geom{}
+		return &Scanner{w.Scan, func() geom.T { return w.T }}
+	case mgeom.Pt:
+		w := &wkb.Point{}
+		return &Scanner{w.Scan, func() geom.T { return nilIf(w.Point, w.Point) }}
+	case mgeom.LS:
+		w := &wkb.LineString{}
+		return &Scanner{w.Scan, func() geom.T { return nilIf(w.LineString, w.LineString) }}
+	case mgeom.Pg:
+		w := &wkb.Polygon{}
+		return &Scanner{w.Scan, func() geom.T { return nilIf(w.Polygon, w.Polygon) }}
+	case mgeom.MPt:
+		w := &wkb.MultiPoint{}
+		return &Scanner{w.Scan, func() geom.T { return nilIf(w.MultiPoint, w.MultiPoint) }}
+	case mgeom.MLS:
+		w := &wkb.MultiLineString{}
+		return &Scanner{w.Scan, func() geom.T { return nilIf(w.MultiLineString, w.MultiLineString) }}
+	case mgeom.MPg:
+		w := &wkb.MultiPolygon{}
+		return &Scanner{w.Scan, func() geom.T { return nilIf(w.MultiPolygon, w.MultiPolygon) }}
+	case mgeom.GC:
+		w := &wkb.GeometryCollection{}
+		return &Scanner{w.Scan, func() geom.T { return nilIf(w.GeometryCollection, w.GeometryCollection) }}
+	}
+	return nil
+}
+
 // GenericValue is wkb.Geom's Value.
 func (l Lib) GenericValue(g geom.T) (driver.Value, error) {
 	return (&wkb.Geom{T: g}).Value()
